@@ -366,3 +366,52 @@ def c07(ev, tier, seed):
         conn_model(ev, "C07", seed, "basic-pend", 24, ["basic"], spurious=True, maxcuts=1, maxpend=2)
     ev.exhaustive = False
     ev.assumptions = CONN_ASSUME + ["a write of more than 65535 bytes (several records) is not in the handler menu"]
+
+
+@check("C09")
+def c09(ev, tier, seed):
+    ev.rule = ("MC_Conn family 'reads': Filter and Responder requests whose streams are interleaved with GetValues / unknown records; "
+               "handler programs mixing read(0|1|2|5|64), read-until-EOF, fill_buf+consume(1|64), legal and illegal set_stream, "
+               "writeable(), reads after EOF (EOF must persist), writes; is_writeable() sampled after every operation; every split of "
+               "transport reads and writes with up to 2 (thorough 3) partial transfers at any offset, spurious Pending in thorough. "
+               "The replay compares every value returned by poll_read / poll_fill_buf byte for byte with the wire intervals the "
+               "specification predicts, the result of set_stream, and the is_writeable() samples.")
+    conn_model(ev, "C09", seed, "reads-b24", 24, ["reads"], maxcuts=2)
+    if tier == "thorough":
+        conn_model(ev, "C09", seed, "reads-b32", 32, ["reads", "basic"], maxcuts=3)
+        conn_model(ev, "C09", seed, "reads-pend", 24, ["reads"], spurious=True, maxcuts=1, maxpend=2)
+    ev.exhaustive = False
+    ev.assumptions = CONN_ASSUME
+
+
+@check("C11")
+def c11(ev, tier, seed):
+    ev.rule = ("AbortRequest (own / other id, with body and padding) after every record of the preamble (MC_ReqParser hostile + inter "
+               "menus: abort during Params => one EndRequest RequestComplete, no request, parser back in Header mode) and of each "
+               "input stream (MC_StreamParser mini menus: error held at the abort header, delivered bytes a prefix), and end to end in "
+               "MC_Conn family 'abort': handlers that are reading, buffered-reading, not reading, already past end-of-stream, with "
+               "their own status or the ABRT status, followed by a further request on the same connection.")
+    rp_model(ev, "C11", seed, "rp", 24, ["hostile", "inter"], "quick" if tier == "quick" else "all")
+    sp_model(ev, "C11", seed, "sp", 24, ["mini3"], "tiny", [2], ops=("cs", "ss"))
+    for B in ((24, 32) if tier == "thorough" else (24,)):
+        conn_model(ev, "C11", seed, "abort-b%d" % B, B, ["abort"], maxcuts=2)
+    if tier == "thorough":
+        chain_traces(ev, "C11", seed, 1500)
+    ev.exhaustive = False
+    ev.assumptions = CONN_ASSUME
+
+
+@check("C12")
+def c12(ev, tier, seed):
+    ev.rule = ("One fault per behaviour on the 'basic' (and in thorough 'reads', 'abort') scenarios: EOF at every inbound byte offset, a "
+               "read error at record-structured offsets, a write error at every outbound offset 0..72, a zero-length write; combined "
+               "with 1 (thorough 2) partial transfer at any offset. The replay runs Token::run under catch_unwind with a poll budget "
+               "(spinning = violation), checks that nothing is written after a failed write, that no handler runs without a complete "
+               "preamble (handler invocation count and requests equal the specification's), and that a waiting handler receives the "
+               "predicted error kind instead of a short read.")
+    conn_model(ev, "C12", seed, "faults-b24", 24, ["basic"], faults=("eof", "rerr", "werr", "wzero"), maxcuts=1)
+    if tier == "thorough":
+        conn_model(ev, "C12", seed, "faults-b32", 32, ["basic", "reads", "abort"], faults=("eof", "rerr", "werr", "wzero"), maxcuts=1)
+        conn_model(ev, "C12", seed, "faults-cuts2", 24, ["basic"], faults=("eof", "werr"), maxcuts=2)
+    ev.exhaustive = False
+    ev.assumptions = CONN_ASSUME + ["'for a handler that propagates I/O errors': every handler program returns the error of a failed read or write"]
